@@ -191,30 +191,33 @@ class SymNP:
     def dot(self, a, b):
         return _np.dot(a, b)
 
-    def exp(self, x):
+    def _elementwise(self, x, meth, fallback):
         if isinstance(x, (SymReal, SymComplex)):
-            return x.exp()
-        return _np.exp(x)
+            return getattr(x, meth)()
+        if type(x).__name__ == "DataArray":
+            return fallback(x)
+        if isinstance(x, _np.ndarray) and x.dtype == object:
+            out = SymArray(x.shape)
+            for i in _np.ndindex(*x.shape):
+                v = x[i]
+                _np.ndarray.__setitem__(out, i, getattr(v, meth)() if hasattr(v, meth) else fallback(v))
+            return out if x.ndim else out[()]
+        return fallback(x)
+
+    def exp(self, x):
+        return self._elementwise(x, "exp", _np.exp)
 
     def log(self, x):
-        if isinstance(x, SymReal):
-            return x.log()
-        return _np.log(x)
+        return self._elementwise(x, "log", _np.log)
 
     def sqrt(self, x):
-        if isinstance(x, SymReal):
-            return x.sqrt()
-        return _np.sqrt(x)
+        return self._elementwise(x, "sqrt", _np.sqrt)
 
     def sin(self, x):
-        if isinstance(x, SymReal):
-            return x.sin()
-        return _np.sin(x)
+        return self._elementwise(x, "sin", _np.sin)
 
     def cos(self, x):
-        if isinstance(x, SymReal):
-            return x.cos()
-        return _np.cos(x)
+        return self._elementwise(x, "cos", _np.cos)
 
     def abs(self, x):
         if isinstance(x, SymReal):
